@@ -29,6 +29,10 @@
 (*   not         C06  not() likewise on its input                          *)
 (*   criteria    C06  where/all/exists/select... a criterion result with   *)
 (*                    several items fails the node                         *)
+(*   iif         C06  iif(): a criterion result of several items fails the *)
+(*                    node; one that reads true (a single non-Boolean item  *)
+(*                    included) gives the outcome of an evaluated branch,   *)
+(*                    false or empty that of a branch or nothing            *)
 (*   emptyin     C07  empty input to a propagating node gives empty        *)
 (*   emptyop     C07  an empty operand of is/as/polarity/=/</arithmetic    *)
 (*   threading   C02  in a sequence a.b.c each node's input is its         *)
@@ -308,6 +312,22 @@ ConcatLaw(f, e) ==
      THEN (IF StrOut(e) /\ e.outv[1].cp = cpOf(f.kids[1]) \o cpOf(f.kids[2]) THEN {} ELSE {<<"concat", "C07">>})
      ELSE {}
 
+(* ---- iif(criterion, then [, else]) (C06): arguments are evaluated on the node's own input, the criterion first.  The trace does ---- *)
+(* not say WHICH argument a later child is (an implementation may evaluate only the branch it needs), so the law speaks of the        *)
+(* criterion: one that fails or has several items fails the node; one that reads true has a branch evaluated, whose outcome is the     *)
+(* node's; otherwise the outcome is that of an evaluated branch, or nothing.                                                           *)
+IifLaw(f, e) ==
+  LET nk == Len(f.kids)
+      c == f.kids[1]
+      bad(cond) == IF cond THEN {} ELSE {<<"iif", "C06">>}
+      ofBranch == \E j \in 2..nk : e.out = f.kids[j].out
+  IN IF f.p # "Iif" \/ nk = 0 \/ c.in # f.in THEN {}
+     ELSE IF ~c.ok THEN bad(~e.ok)
+     ELSE IF c.cls = "M" THEN (IF Mutant = "iifManyIsTrue" THEN bad(e.ok) ELSE bad(~e.ok))
+     ELSE IF ~e.ok THEN {}                                   \* a failing branch fails the node
+     ELSE IF Truthy(c.cls) THEN bad(ofBranch)
+     ELSE bad(e.out = <<>> \/ ofBranch)
+
 (* ---- is / as on one logged item (C12) ---- *)
 (* The operand's type: a proto message is a FHIR element of the type its descriptor declares (a FHIR boolean is FHIR.boolean *)
 (* although it has a System value), anything else with a logged value is a System value.  Left open as in FPEval!IsA: xhtml, *)
@@ -389,7 +409,7 @@ EndLaws(f, e) ==
   \cup (IF f.k = "Index" /\ nk = 1 /\ f.kids[1].ok /\ f.kids[1].hi
            /\ ~(e.ok /\ e.out = (IF f.kids[1].iv >= 0 /\ f.kids[1].iv < n THEN <<f.in[f.kids[1].iv + 1]>> ELSE <<>>))
         THEN {<<"subset", "C10">>} ELSE {})
-  \cup (IF f.k = "Function" THEN FnLaws(f, e) \cup StrLaw(f, e) \cup ConvLaw(f, e) \cup MathLaw(f, e) \cup SetLaw(f, e) ELSE {})
+  \cup (IF f.k = "Function" THEN FnLaws(f, e) \cup StrLaw(f, e) \cup ConvLaw(f, e) \cup MathLaw(f, e) \cup SetLaw(f, e) \cup IifLaw(f, e) ELSE {})
   \cup (IF f.k = "Concat" THEN ConcatLaw(f, e) ELSE {})
   \cup (IF f.k = "Equality" THEN EqLaw(f, e) ELSE {})
   \cup (IF f.k = "Comparison" THEN CmpLaw(f, e) ELSE {})
